@@ -758,6 +758,31 @@ func (x *Exec) stub(st *State, f *Frame, in *ssa.Call, fn *ssa.Function, name st
 		// a single call is executed sequentially: locking has no effect on its result (writes to shared state are still recorded)
 		x.ret(f, in, nil)
 		return true
+	case "sync/atomic.LoadUint32", "sync/atomic.LoadInt32", "sync/atomic.LoadUint64", "sync/atomic.LoadInt64", "sync/atomic.LoadPointer", "sync/atomic.LoadUintptr":
+		// a single call runs sequentially: atomics are plain memory operations (writes to shared objects are still recorded)
+		x.ret(f, in, x.load(st, args[0].(P), in.Type()))
+		return true
+	case "sync/atomic.StoreUint32", "sync/atomic.StoreInt32", "sync/atomic.StoreUint64", "sync/atomic.StoreInt64", "sync/atomic.StorePointer", "sync/atomic.StoreUintptr":
+		x.store(st, args[0].(P), in.Common().Args[1].Type(), args[1])
+		x.ret(f, in, nil)
+		return true
+	case "sync/atomic.CompareAndSwapUint32", "sync/atomic.CompareAndSwapInt32", "sync/atomic.CompareAndSwapUint64", "sync/atomic.CompareAndSwapInt64":
+		cur := x.word(x.load(st, args[0].(P), in.Common().Args[1].Type()))
+		eq := d.Cmp("eq", cur, x.word(args[1]))
+		if !eq.IsConst() {
+			x.fail("compare-and-swap on a symbolic value")
+		}
+		if eq.IsTrue() {
+			x.store(st, args[0].(P), in.Common().Args[1].Type(), args[2])
+		}
+		x.ret(f, in, W{eq})
+		return true
+	case "sync/atomic.AddUint32", "sync/atomic.AddInt32", "sync/atomic.AddUint64", "sync/atomic.AddInt64":
+		cur := x.word(x.load(st, args[0].(P), in.Common().Args[1].Type()))
+		nv := d.Bin("add", cur, x.word(args[1]))
+		x.store(st, args[0].(P), in.Common().Args[1].Type(), W{nv})
+		x.ret(f, in, W{nv})
+		return true
 	case "(*sync.Pool).Get", "(*sync.Pool).Put":
 		// a pool is shared mutable state of the process: recorded as a store into a global (C16), modelled as always empty
 		pp := args[0].(P)
